@@ -1,5 +1,6 @@
 import Nstd.Args.LemmasExec
 import Nstd.Args.LemmasRead
+import Nstd.Args.LemmasSpec
 /-
   Property C20 -- theorems about the model of src/Process.cpp (Nstd/Args/Model.lean) and the
   specification (Nstd/Args/Spec.lean).  Bytes are natural numbers; 0 is the terminator,
@@ -68,6 +69,14 @@ theorem getopt_terminator (opts : List SOpt) (ws : List Word) :
     getopt opts ([45, 45] :: ws) = ws.map (fun w => (0, w)) := by
   simp [getopt, parse]
 
+/-- the conventions are usable: a list of intended items -- flags `-c`, options with detached
+    (`-c v`, `--name v`), attached (`-cv`) or `=` values (`--name=v`), long flags, positional words not
+    beginning with `-` -- written as an argument vector in the way the option table allows (`Item.Valid`)
+    is parsed back into exactly these items, for every option table and every such list -/
+theorem getopt_roundtrip (opts : List SOpt) (items : List Item) (hv : ∀ it ∈ items, it.Valid opts) :
+    getopt opts (items.flatMap Item.render) = items.map (Item.result opts) :=
+  getopt_render opts items hv
+
 /-- the table of the correspondence run: a/alpha flag, b flag without long name, o/out required value, p/opt optional value -/
 def exTable : List SOpt :=
   [⟨97, some [97, 108, 112, 104, 97], 0⟩, ⟨98, none, 0⟩, ⟨111, some [111, 117, 116], 1⟩, ⟨112, some [111, 112, 116], 3⟩]
@@ -76,6 +85,13 @@ example : OptsOk exTable := by
   intro o ho n hn
   simp [exTable] at ho
   rcases ho with rfl | rfl | rfl | rfl <;> simp at hn <;> subst hn <;> intro c hc <;> simp at hc <;> omega
+
+example : (Item.flag 97).Valid exTable ∧ (Item.shortDetached 111 [45, 120]).Valid exTable ∧
+    (Item.longValue [111, 117, 116] [118]).Valid exTable ∧ (Item.longFlag [111, 112, 116]).Valid exTable :=
+  ⟨⟨by decide, ⟨97, some [97, 108, 112, 104, 97], 0⟩, rfl, by decide⟩,
+   ⟨by decide, ⟨111, some [111, 117, 116], 1⟩, rfl, by decide, by decide⟩,
+   ⟨by decide, by decide, ⟨111, some [111, 117, 116], 1⟩, rfl⟩,
+   ⟨by decide, by decide, ⟨112, some [111, 112, 116], 3⟩, rfl, Or.inr (by decide)⟩⟩
 
 -- `-ab -ov -o v --out=v --opt -pv -z -- -a` and a missing value at the end
 example : getopt exTable [[45, 97, 98], [45, 111, 118], [45, 111], [118], [45, 45, 111, 117, 116, 61, 118],
